@@ -27,7 +27,7 @@ def strip_s0(b):
 class C13(Engine):
     prop = "C13"
     title = "assembly is a deterministic function of the source alone"
-    quick_budget = 45
+    quick_budget = 90
     quick_runs = 13000
     thorough_budget = 900
     variants = ("small",)
